@@ -94,6 +94,66 @@ Qed.
 Lemma w_tmp_ne_path c : w_tmp c <> w_path c.
 Proof. apply tmp_name_ne_path. Qed.
 
+(* every spelling of the path: the temporary path names a file of the SAME directory, called base.pid.tid *)
+Lemma has_slash_app a b : has_slash (a ++ b) = has_slash a || has_slash b.
+Proof. induction a as [|x a IH]; cbn [app has_slash]; auto. rewrite IH. apply orb_assoc. Qed.
+
+Lemma base_of_noslash p : has_slash p = false -> base_of p = p.
+Proof. destruct p as [|x r]; auto. intro H. cbn [base_of]. rewrite H. reflexivity. Qed.
+
+Lemma dir_of_noslash p : has_slash p = false -> dir_of p = [].
+Proof. destruct p as [|x r]; auto. intro H. cbn [dir_of]. rewrite H. reflexivity. Qed.
+
+Lemma base_of_app p s : has_slash s = false -> base_of (p ++ s) = base_of p ++ s.
+Proof.
+  intro Hs. induction p as [|x r IH]; [apply base_of_noslash; exact Hs|].
+  change ((x :: r) ++ s) with (x :: (r ++ s)). cbn [base_of].
+  change (has_slash (x :: r ++ s)) with (has_slash ((x :: r) ++ s)). rewrite has_slash_app, Hs, orb_false_r.
+  destruct (has_slash (x :: r)); [exact IH|reflexivity].
+Qed.
+
+Lemma dir_of_app p s : has_slash s = false -> dir_of (p ++ s) = dir_of p.
+Proof.
+  intro Hs. induction p as [|x r IH]; [apply dir_of_noslash; exact Hs|].
+  change ((x :: r) ++ s) with (x :: (r ++ s)). cbn [dir_of].
+  change (has_slash (x :: r ++ s)) with (has_slash ((x :: r) ++ s)). rewrite has_slash_app, Hs, orb_false_r.
+  destruct (has_slash (x :: r)); [rewrite IH|]; reflexivity.
+Qed.
+
+Lemma dir_base p : dir_of p ++ base_of p = p.
+Proof.
+  induction p as [|x r IH]; auto. cbn [dir_of base_of]. destruct (has_slash (x :: r)); [|reflexivity].
+  cbn [app]. rewrite IH. reflexivity.
+Qed.
+
+Lemma base_no_slash p : has_slash (base_of p) = false.
+Proof.
+  induction p as [|x r IH]; auto. cbn [base_of]. destruct (has_slash (x :: r)) eqn:E; [exact IH|exact E].
+Qed.
+
+Lemma digits_no_slash l : all_digits l = true -> has_slash l = false.
+Proof.
+  induction l as [|x l IH]; auto. cbn [all_digits has_slash]. intro H. apply andb_true_iff in H as [Hx Hl].
+  rewrite (IH Hl), orb_false_r. destruct (x =? SLASH) eqn:E; auto. apply N.eqb_eq in E. subst x. vm_compute in Hx. discriminate.
+Qed.
+
+Lemma suffix_no_slash a b : has_slash (DOT :: dec_of_N a ++ DOT :: dec_of_N b) = false.
+Proof.
+  destruct (dec_of_N_spec a) as (_ & Ha & _). destruct (dec_of_N_spec b) as (_ & Hb & _).
+  change (DOT :: dec_of_N a ++ DOT :: dec_of_N b) with ([DOT] ++ dec_of_N a ++ [DOT] ++ dec_of_N b).
+  rewrite !has_slash_app, (digits_no_slash _ Ha), (digits_no_slash _ Hb). reflexivity.
+Qed.
+
+Theorem tmp_same_directory p a b :
+  dir_of (tmp_name p a b) = dir_of p /\ base_of (tmp_name p a b) = tmp_name (base_of p) a b
+  /\ has_slash (base_of (tmp_name p a b)) = false.
+Proof.
+  unfold tmp_name. pose proof (suffix_no_slash a b) as Hs. split; [|split].
+  - apply dir_of_app. exact Hs.
+  - apply base_of_app. exact Hs.
+  - rewrite base_of_app by exact Hs. rewrite has_slash_app, base_no_slash, Hs. reflexivity.
+Qed.
+
 (* ------------------------------------------------------------------ small facts about the data *)
 Lemma concat_mk_chunks split : forall data, concat (mk_chunks split data) = data.
 Proof.
@@ -193,15 +253,33 @@ Proof.
     split; [discriminate|reflexivity].
 Qed.
 
+Lemma short_find_nil j : short_find [] j = None.
+Proof. reflexivity. Qed.
+
+Lemma keeps_retry c j ch n : keeps c -> short_of c j ch = Some n -> w_retry c = true.
+Proof.
+  intros [H|H] Hs; auto. unfold short_of in Hs. rewrite H in Hs. cbn [short_find] in Hs. discriminate.
+Qed.
+
 Lemma do_write_winv c s f chunks j s' f' :
+  keeps c ->
   WInv c s (fs_find f (w_tmp c)) chunks ->
   do_write c s f chunks j = (s', f') -> winv c s' (fs_find f' (w_tmp c)).
 Proof.
-  intros HW H. destruct chunks as [|ch rest]; cbn [do_write] in H.
+  intros Hk HW H. destruct chunks as [|ch rest]; cbn [do_write] in H.
   - eapply do_close_winv; eauto.
   - destruct (plan_find (w_plan c) (SWrite j)) as [[k n]|].
     + destruct (accept c s f (firstn n ch)). inv H. exact I.
-    + destruct HW as (d & b & Ht & Hb & Hn & Hu). unfold accept in H.
+    + destruct (short_of c j ch) as [n|] eqn:Hsh.
+      { rewrite (keeps_retry c j ch n Hk Hsh) in H.
+        destruct HW as (d & b & Ht & Hb & Hn & Hu). unfold accept in H.
+        destruct (w_buffered c) eqn:Hbuf; inv H; unfold winv; cbn [w_pc].
+        * exists d, (b ++ firstn n ch). cbn [w_buf]. rewrite Hb. cbn [option_map]. repeat split; auto.
+          -- rewrite <- Hn. cbn [concat]. rewrite <- !app_assoc. rewrite (app_assoc (firstn n ch)), firstn_skipn. reflexivity.
+          -- intro Hx. congruence.
+        * rewrite (Hu eq_refl) in *. exists (d ++ firstn n ch), []. cbn [w_buf]. rewrite find_append_same, Ht. cbn [option_map].
+          repeat split; auto. rewrite <- Hn. cbn [concat app]. rewrite <- !app_assoc. rewrite (app_assoc (firstn n ch)), firstn_skipn. reflexivity. }
+      destruct HW as (d & b & Ht & Hb & Hn & Hu). unfold accept in H.
       destruct (w_buffered c) eqn:Hbuf; inv H; unfold winv; cbn [w_pc].
       * exists d, (b ++ ch). cbn [w_buf]. rewrite Hb. cbn [option_map]. repeat split; auto.
         -- rewrite <- Hn. cbn [concat]. rewrite <- !app_assoc. reflexivity.
@@ -211,14 +289,15 @@ Proof.
 Qed.
 
 Lemma step_winv c s f s' f' :
+  keeps c ->
   winv c s (fs_find f (w_tmp c)) -> wstep c s f = (s', f') -> winv c s' (fs_find f' (w_tmp c)).
 Proof.
-  intros HI H. unfold wstep in H. unfold winv in HI. destruct (w_pc s) as [|rest i acc|chunks j|pending| |e|e|r] eqn:Hpc.
+  intros Hk HI H. unfold wstep in H. unfold winv in HI. destruct (w_pc s) as [|rest i acc|chunks j|pending| |e|e|r] eqn:Hpc.
   - destruct (plan_find (w_plan c) SOpen) as [[k n]|]; inv H; [apply handler_winv|].
     unfold winv. cbn [w_pc w_buf]. rewrite find_set_same. auto.
   - destruct HI as (Ht & Hb & Hd). destruct rest as [|[b| |k] rest].
     + destruct acc as [data|].
-      * eapply do_write_winv; [|exact H]. exists [], []. repeat split; auto.
+      * eapply do_write_winv; [exact Hk| |exact H]. exists [], []. repeat split; auto.
         cbn [app]. rewrite concat_mk_chunks. exact Hd.
       * eapply do_close_winv; [|exact H]. discriminate.
     + inv H. unfold winv. cbn [w_pc w_buf]. auto.
@@ -241,9 +320,9 @@ Proof. exact I. Qed.
 (* ------------------------------------------------------------------ termination *)
 Definition pc_fuel (c : wcfg) (p : pc) : nat :=
   match p with
-  | POpen => 7 + length (w_colls c) + length (w_split c)
-  | PCollect rest _ _ => 6 + length rest + length (w_split c)
-  | PWrite chunks _ => 4 + length chunks
+  | POpen => 7 + length (w_colls c) + length (w_split c) + length (w_short c)
+  | PCollect rest _ _ => 6 + length rest + length (w_split c) + length (w_short c)
+  | PWrite chunks j => 4 + length chunks + shorts_from (w_short c) j
   | PClose _ => 4
   | PRename => 3
   | PExists _ => 2
@@ -262,14 +341,45 @@ Proof.
   - destruct pending as [e|]; [pose proof (handler_fuel c e); lia|cbn [pc_fuel]; lia].
 Qed.
 
+Lemma shorts_from_le p j : (shorts_from p j <= length p)%nat.
+Proof.
+  unfold shorts_from. induction p as [|e p IH]; cbn [filter length]; auto.
+  destruct (Nat.leb j (fst e)); cbn [length]; lia.
+Qed.
+
+Lemma shorts_from_S p j : (shorts_from p (S j) <= shorts_from p j)%nat.
+Proof.
+  unfold shorts_from. induction p as [|[j' n] p IH]; cbn [filter fst]; auto.
+  destruct (Nat.leb_spec (S j) j'); destruct (Nat.leb_spec j j'); cbn [length]; lia.
+Qed.
+
+Lemma shorts_from_fired p j n : short_find p j = Some n -> (shorts_from p (S j) < shorts_from p j)%nat.
+Proof.
+  unfold shorts_from. induction p as [|[j' m] p IH]; cbn [short_find filter fst]; [discriminate|].
+  pose proof (shorts_from_S p j) as Hm. unfold shorts_from in Hm.
+  destruct (Nat.eqb_spec j j') as [->|N]; intro H.
+  - destruct (Nat.leb_spec (S j') j'); [lia|]. rewrite Nat.leb_refl. cbn [length]. lia.
+  - specialize (IH H). destruct (Nat.leb_spec (S j) j'); destruct (Nat.leb_spec j j'); cbn [length]; lia.
+Qed.
+
+Lemma short_of_found c j ch n : short_of c j ch = Some n -> short_find (w_short c) j = Some n.
+Proof.
+  unfold short_of. destruct (short_find (w_short c) j) as [m|]; [|discriminate].
+  destruct (Nat.ltb m (length ch)); congruence.
+Qed.
+
 Lemma do_write_fuel c s f chunks j s' f' :
-  do_write c s f chunks j = (s', f') -> (pc_fuel c (w_pc s') < 4 + length chunks)%nat.
+  do_write c s f chunks j = (s', f') -> (pc_fuel c (w_pc s') < 4 + length chunks + shorts_from (w_short c) j)%nat.
 Proof.
   intro H. destruct chunks as [|ch rest]; cbn [do_write] in H.
   - apply do_close_fuel in H. cbn [length]. lia.
-  - destruct (plan_find (w_plan c) (SWrite j)) as [[k n]|].
+  - pose proof (shorts_from_S (w_short c) j) as Hm.
+    destruct (plan_find (w_plan c) (SWrite j)) as [[k n]|].
     + destruct (accept c s f (firstn n ch)). inv H. cbn [w_pc pc_fuel length]. lia.
-    + destruct (accept c s f ch). inv H. cbn [w_pc pc_fuel length]. lia.
+    + destruct (short_of c j ch) as [n|] eqn:Hsh.
+      * apply short_of_found, shorts_from_fired in Hsh.
+        destruct (accept c s f (firstn n ch)). inv H. cbn [w_pc pc_fuel]. destruct (w_retry c); cbn [length]; lia.
+      * destruct (accept c s f ch). inv H. cbn [w_pc pc_fuel length]. lia.
 Qed.
 
 Lemma step_fuel c s f s' f' :
@@ -282,7 +392,8 @@ Proof.
     + cbn [pc_fuel]. lia.
   - right. destruct rest as [|[b| |k] rest].
     + destruct acc as [data|].
-      * apply do_write_fuel in H. rewrite length_mk_chunks in H. cbn [pc_fuel length]. lia.
+      * apply do_write_fuel in H. rewrite length_mk_chunks in H. pose proof (shorts_from_le (w_short c) 0).
+        cbn [pc_fuel length]. lia.
       * apply do_close_fuel in H. cbn [pc_fuel length]. lia.
     + inv H. cbn [w_pc pc_fuel length]. lia.
     + inv H. cbn [w_pc pc_fuel length]. lia.
@@ -360,42 +471,49 @@ Proof.
 Qed.
 
 Lemma do_write_cinv c s f chunks j s' f' :
-  do_write c s f chunks j = (s', f') -> cinv c s' (fs_find f' (w_tmp c)) /\ resume c (w_pc s') = resume_write c chunks j.
+  do_write c s f chunks j = (s', f') ->
+  cinv c s' (fs_find f' (w_tmp c)) /\ (w_short c = [] -> resume c (w_pc s') = resume_write c chunks j).
 Proof.
   intro H. destruct chunks as [|ch rest]; cbn [do_write resume_write] in *.
-  - apply do_close_cinv in H. exact H.
+  - apply do_close_cinv in H. split; [apply H|intros _; apply H].
   - destruct (plan_find (w_plan c) (SWrite j)) as [[k n]|].
     + destruct (accept c s f (firstn n ch)). inv H. split; [exact I|reflexivity].
-    + destruct (accept c s f ch). inv H. split; [exact I|reflexivity].
+    + destruct (short_of c j ch) as [n|] eqn:Hsh.
+      * destruct (accept c s f (firstn n ch)). inv H. split; [exact I|].
+        intro Hno. unfold short_of in Hsh. rewrite Hno in Hsh. discriminate.
+      * destruct (accept c s f ch). inv H. split; [exact I|reflexivity].
 Qed.
+
+Lemma weaken_r (A B P : Prop) : A /\ B -> A /\ (P -> B).
+Proof. tauto. Qed.
 
 Lemma step_cinv c s f s' f' :
   nhf c -> winv c s (fs_find f (w_tmp c)) -> cinv c s (fs_find f (w_tmp c)) ->
   wstep c s f = (s', f') ->
-  cinv c s' (fs_find f' (w_tmp c)) /\ resume c (w_pc s') = resume c (w_pc s).
+  cinv c s' (fs_find f' (w_tmp c)) /\ (w_short c = [] -> resume c (w_pc s') = resume c (w_pc s)).
 Proof.
   intros [Hex Hrm] HW HC H. pose proof (w_tmp_ne_path c) as N.
   unfold wstep in H. unfold winv in HW. unfold cinv in HC.
   destruct (w_pc s) as [|rest i acc|chunks j|pending| |e|e|r] eqn:Hpc; cbn [resume].
-  - destruct (plan_find (w_plan c) SOpen) as [[k n]|]; inv H; cbn [w_pc].
+  - apply weaken_r. destruct (plan_find (w_plan c) SOpen) as [[k n]|]; inv H; cbn [w_pc].
     + split; [apply handler_cinv|apply resume_handler].
     + split; [exact I|reflexivity].
   - destruct rest as [|[b| |k] rest]; cbn [resume_collect].
-    + destruct acc as [data|]; [apply do_write_cinv in H|apply do_close_cinv in H]; exact H.
+    + destruct acc as [data|]; [apply do_write_cinv in H|apply weaken_r; apply do_close_cinv in H]; exact H.
     + inv H. split; [exact I|reflexivity].
     + inv H. split; [exact I|reflexivity].
     + inv H. split; [exact I|reflexivity].
   - apply do_write_cinv in H. exact H.
-  - apply do_close_cinv in H. exact H.
-  - destruct (plan_find (w_plan c) SRename) as [[k n]|].
+  - apply weaken_r. apply do_close_cinv in H. exact H.
+  - apply weaken_r. destruct (plan_find (w_plan c) SRename) as [[k n]|].
     + inv H. cbn [w_pc]. split; [apply handler_cinv|apply resume_handler].
     + destruct (os_move _ _ _ _ _) eqn:Hm.
       * use_move. inv H. cbn [w_pc]. split; [|reflexivity]. unfold cinv. cbn [w_pc]. find_simpl. reflexivity.
       * apply os_move_chosen_none in Hm. destruct HW as [HW _]. congruence.
-  - rewrite Hex in H. destruct (fs_find f (w_tmp c)) eqn:E; inv H; unfold cinv; cbn [w_pc resume]; auto.
-  - rewrite Hrm in H. destruct (fs_find f (w_tmp c)) eqn:E; [|congruence]. inv H. unfold cinv. cbn [w_pc resume].
+  - apply weaken_r. rewrite Hex in H. destruct (fs_find f (w_tmp c)) eqn:E; inv H; unfold cinv; cbn [w_pc resume]; auto.
+  - apply weaken_r. rewrite Hrm in H. destruct (fs_find f (w_tmp c)) eqn:E; [|congruence]. inv H. unfold cinv. cbn [w_pc resume].
     split; [|reflexivity]. intros _. apply find_remove_same.
-  - inv H. unfold cinv. rewrite Hpc. cbn [resume]. auto.
+  - apply weaken_r. inv H. unfold cinv. rewrite Hpc. cbn [resume]. auto.
 Qed.
 
 (* ------------------------------------------------------------------ one call on its own *)
@@ -408,9 +526,9 @@ Definition SInv (c : wcfg) (f0 : fs) (s : wstate) (f : fs) : Prop :=
 Lemma SInv_init c f0 : SInv c f0 winit f0.
 Proof. repeat split; auto. cbn [winit w_pc]. discriminate. Qed.
 
-Lemma SInv_step c f0 s f s' f' : SInv c f0 s f -> wstep c s f = (s', f') -> SInv c f0 s' f'.
+Lemma SInv_step c f0 s f s' f' : keeps c -> SInv c f0 s f -> wstep c s f = (s', f') -> SInv c f0 s' f'.
 Proof.
-  intros (HW & HF & HT & HD) H. split; [eapply step_winv; eauto|]. split.
+  intros Hk (HW & HF & HT & HD) H. split; [eapply step_winv; eauto|]. split.
   { intros p N1 N2. rewrite (step_frame _ _ _ _ _ p H N1 N2). auto. }
   destruct (step_target _ _ _ _ _ H) as [[Hpc Ht]|(Hpc & Hpc' & b & Hb & Htb & _)].
   - rewrite Ht. split.
@@ -422,16 +540,17 @@ Proof.
     exists b. split; [congruence|exact Htb].
 Qed.
 
-Lemma SInv_run c f0 n : SInv c f0 (fst (wsteps c n winit f0)) (snd (wsteps c n winit f0)).
-Proof. apply (wsteps_inv c (SInv c f0)); [apply SInv_step|apply SInv_init]. Qed.
+Lemma SInv_run c f0 n : keeps c -> SInv c f0 (fst (wsteps c n winit f0)) (snd (wsteps c n winit f0)).
+Proof. intro Hk. apply (wsteps_inv c (SInv c f0)); [intros s f s' f'; apply SInv_step; exact Hk|apply SInv_init]. Qed.
 
 (* at every cut point the target is old or complete new *)
 Theorem target_old_or_new c f0 n :
+  keeps c ->
   let f := snd (wsteps c n winit f0) in
   fs_find f (w_path c) = fs_find f0 (w_path c)
   \/ exists d, w_new c = Some d /\ fs_find f (w_path c) = Some d.
 Proof.
-  cbn zeta. destruct (SInv_run c f0 n) as (_ & _ & HT & HD).
+  intro Hk. cbn zeta. destruct (SInv_run c f0 n Hk) as (_ & _ & HT & HD).
   destruct (w_pc (fst (wsteps c n winit f0))) as [| | | | | | |[e|]] eqn:E;
     try (left; apply HT; discriminate).
   right. apply HD. reflexivity.
@@ -440,7 +559,22 @@ Qed.
 (* and no other file than the temporary one is ever touched *)
 Theorem others_untouched c f0 n p :
   p <> w_tmp c -> p <> w_path c -> fs_find (snd (wsteps c n winit f0)) p = fs_find f0 p.
-Proof. destruct (SInv_run c f0 n) as (_ & HF & _). apply HF. Qed.
+Proof.
+  intros N1 N2.
+  apply (wsteps_inv c (fun _ f => fs_find f p = fs_find f0 p)); [|reflexivity].
+  intros s f s' f' HP H. rewrite (step_frame _ _ _ _ _ p H N1 N2). exact HP.
+Qed.
+
+(* whatever the short writes do (retried or not): the target is untouched until the call RETURNS; a call that has
+   not returned, or that raised, never shows anything but the previous content *)
+Theorem target_untouched_unless_returned c f0 n :
+  w_pc (fst (wsteps c n winit f0)) <> PDone None ->
+  fs_find (snd (wsteps c n winit f0)) (w_path c) = fs_find f0 (w_path c).
+Proof.
+  apply (wsteps_inv c (fun s f => w_pc s <> PDone None -> fs_find f (w_path c) = fs_find f0 (w_path c))); [|reflexivity].
+  intros s f s' f' HP H Hn. destruct (step_target _ _ _ _ _ H) as [[Hpc Ht]|(_ & Hpc' & _)]; [|contradiction].
+  rewrite Ht. apply HP. intro Hs. unfold wstep in H. rewrite Hs in H. inv H. contradiction.
+Qed.
 
 Theorem terminates c f0 : exists r, w_pc (fst (wfinal c f0)) = PDone r.
 Proof. unfold wfinal. apply wsteps_terminates. cbn [winit w_pc pc_fuel]. unfold wbound. lia. Qed.
@@ -453,31 +587,35 @@ Proof.
 Qed.
 
 Definition SInv2 (c : wcfg) (s : wstate) (f : fs) : Prop :=
-  winv c s (fs_find f (w_tmp c)) /\ cinv c s (fs_find f (w_tmp c)) /\ resume c (w_pc s) = wresult c.
+  winv c s (fs_find f (w_tmp c)) /\ cinv c s (fs_find f (w_tmp c)) /\ (w_short c = [] -> resume c (w_pc s) = wresult c).
 
-Lemma SInv2_run c f0 n : nhf c -> SInv2 c (fst (wsteps c n winit f0)) (snd (wsteps c n winit f0)).
+Lemma SInv2_run c f0 n : keeps c -> nhf c -> SInv2 c (fst (wsteps c n winit f0)) (snd (wsteps c n winit f0)).
 Proof.
-  intro Hn. apply (wsteps_inv c (SInv2 c)).
+  intros Hk Hn. apply (wsteps_inv c (SInv2 c)).
   - intros s f s' f' (HW & HC & HR) H. destruct (step_cinv _ _ _ _ _ Hn HW HC H) as [HC' HR'].
-    split; [eapply step_winv; eauto|]. split; auto. congruence.
+    split; [eapply step_winv; eauto|]. split; auto. intro Hno. rewrite (HR' Hno). auto.
   - repeat split.
 Qed.
 
+Lemma no_short_keeps c : w_short c = [] -> keeps c.
+Proof. intro H. right. exact H. Qed.
+
 (* the call raises exactly the error of the big-step reading, or returns when that says so *)
-Theorem outcome_is_wresult c f0 : nhf c -> outcome (fst (wfinal c f0)) = Some (wresult c).
+Theorem outcome_is_wresult c f0 : w_short c = [] -> nhf c -> outcome (fst (wfinal c f0)) = Some (wresult c).
 Proof.
-  intro Hn. destruct (terminates c f0) as [r Hr]. unfold wfinal in *.
-  destruct (SInv2_run c f0 (wbound c) Hn) as (_ & _ & HR). unfold outcome. rewrite Hr in *. cbn [resume] in HR. congruence.
+  intros Hno Hn. destruct (terminates c f0) as [r Hr]. unfold wfinal in *.
+  destruct (SInv2_run c f0 (wbound c) (no_short_keeps c Hno) Hn) as (_ & _ & HR). specialize (HR Hno).
+  unfold outcome. rewrite Hr in *. cbn [resume] in HR. congruence.
 Qed.
 
 (* raising: nothing changed, no temporary file *)
-Theorem raise_cleans c f0 e :
-  nhf c -> wresult c = Some e -> catches c e = true ->
-  outcome (fst (wfinal c f0)) = Some (Some e) /\ fs_same (snd (wfinal c f0)) (fs_remove f0 (w_tmp c)).
+Theorem raise_cleans_gen c f0 e :
+  keeps c -> nhf c -> outcome (fst (wfinal c f0)) = Some (Some e) -> catches c e = true ->
+  fs_same (snd (wfinal c f0)) (fs_remove f0 (w_tmp c)).
 Proof.
-  intros Hn Hr Hc. pose proof (outcome_is_wresult c f0 Hn) as Ho. rewrite Hr in Ho. split; auto.
-  unfold wfinal in *. destruct (SInv2_run c f0 (wbound c) Hn) as (_ & HC & _).
-  destruct (SInv_run c f0 (wbound c)) as (_ & HF & HT & _).
+  intros Hk Hn Ho Hc.
+  unfold wfinal in *. destruct (SInv2_run c f0 (wbound c) Hk Hn) as (_ & HC & _).
+  destruct (SInv_run c f0 (wbound c) Hk) as (_ & HF & HT & _).
   unfold outcome in Ho. destruct (w_pc (fst (wsteps c (wbound c) winit f0))) eqn:E; try discriminate. inv Ho.
   unfold cinv in HC. rewrite E in HC. pose proof (w_tmp_ne_path c) as N.
   unfold fs_same. intro p. destruct (str_eqb p (w_tmp c)) eqn:E1.
@@ -487,15 +625,23 @@ Proof.
     + apply str_eqb_neq in E2. apply HF; auto.
 Qed.
 
+Theorem raise_cleans c f0 e :
+  w_short c = [] -> nhf c -> wresult c = Some e -> catches c e = true ->
+  outcome (fst (wfinal c f0)) = Some (Some e) /\ fs_same (snd (wfinal c f0)) (fs_remove f0 (w_tmp c)).
+Proof.
+  intros Hno Hn Hr Hc. pose proof (outcome_is_wresult c f0 Hno Hn) as Ho. rewrite Hr in Ho. split; auto.
+  apply (raise_cleans_gen c f0 e (no_short_keeps c Hno) Hn Ho Hc).
+Qed.
+
 (* returning: the target holds the complete new exposition, the temporary file is gone, nothing else changed *)
-Theorem return_installs c f0 :
-  nhf c -> wresult c = None ->
+Theorem return_installs_gen c f0 :
+  keeps c -> nhf c -> outcome (fst (wfinal c f0)) = Some None ->
   exists d, w_new c = Some d /\ outcome (fst (wfinal c f0)) = Some None
             /\ fs_same (snd (wfinal c f0)) (fs_set (fs_remove f0 (w_tmp c)) (w_path c) d).
 Proof.
-  intros Hn Hr. pose proof (outcome_is_wresult c f0 Hn) as Ho. rewrite Hr in Ho.
-  unfold wfinal in *. destruct (SInv2_run c f0 (wbound c) Hn) as (_ & HC & _).
-  destruct (SInv_run c f0 (wbound c)) as (_ & HF & _ & HD).
+  intros Hk Hn Ho.
+  unfold wfinal in *. destruct (SInv2_run c f0 (wbound c) Hk Hn) as (_ & HC & _).
+  destruct (SInv_run c f0 (wbound c) Hk) as (_ & HF & _ & HD).
   unfold outcome in Ho. destruct (w_pc (fst (wsteps c (wbound c) winit f0))) eqn:E; try discriminate. inv Ho.
   destruct (HD eq_refl) as (d & Hd & Ht). exists d. split; [exact Hd|]. split; [unfold outcome; rewrite E; reflexivity|].
   unfold cinv in HC. rewrite E in HC. pose proof (w_tmp_ne_path c) as N.
@@ -504,6 +650,15 @@ Proof.
   - apply str_eqb_neq in E2. rewrite find_set_other by auto. destruct (str_eqb p (w_tmp c)) eqn:E1.
     + apply str_eqb_eq in E1. subst p. rewrite find_remove_same. auto.
     + apply str_eqb_neq in E1. rewrite find_remove_other by auto. apply HF; auto.
+Qed.
+
+Theorem return_installs c f0 :
+  w_short c = [] -> nhf c -> wresult c = None ->
+  exists d, w_new c = Some d /\ outcome (fst (wfinal c f0)) = Some None
+            /\ fs_same (snd (wfinal c f0)) (fs_set (fs_remove f0 (w_tmp c)) (w_path c) d).
+Proof.
+  intros Hno Hn Hr. pose proof (outcome_is_wresult c f0 Hno Hn) as Ho. rewrite Hr in Ho.
+  apply (return_installs_gen c f0 (no_short_keeps c Hno) Hn Ho).
 Qed.
 
 (* ------------------------------------------------------------------ the big-step reading, characterised *)
@@ -714,13 +869,14 @@ Qed.
 
 (* per-writer invariant, as a function of what its own temporary file holds *)
 Definition PW (c : wcfg) (s : wstate) (t : option bytes) : Prop :=
-  winv c s t /\ (nhf c -> cinv c s t /\ resume c (w_pc s) = wresult c).
+  winv c s t /\ (nhf c -> cinv c s t /\ (w_short c = [] -> resume c (w_pc s) = wresult c)).
 
 Lemma PW_step c s f s' f' :
+  keeps c ->
   PW c s (fs_find f (w_tmp c)) -> wstep c s f = (s', f') -> PW c s' (fs_find f' (w_tmp c)).
 Proof.
-  intros [HW HC] H. split; [eapply step_winv; eauto|]. intro Hn. destruct (HC Hn) as [HC1 HC2].
-  destruct (step_cinv _ _ _ _ _ Hn HW HC1 H) as [H1 H2]. split; auto. congruence.
+  intros Hk [HW HC] H. split; [eapply step_winv; eauto|]. intro Hn. destruct (HC Hn) as [HC1 HC2].
+  destruct (step_cinv _ _ _ _ _ Hn HW HC1 H) as [H1 H2]. split; auto. intro Hno. rewrite (H2 Hno). auto.
 Qed.
 
 Lemma PW_init c t : PW c winit t.
@@ -730,7 +886,7 @@ Definition tmp_of (cs : wcfg * wstate) : str := w_tmp (fst cs).
 
 (* all writers aim at the same target; their temporary names differ *)
 Definition WF (path : str) (ws : sys) : Prop :=
-  (forall cs, In cs ws -> w_path (fst cs) = path) /\ NoDup (map tmp_of ws).
+  ((forall cs, In cs ws -> w_path (fst cs) = path) /\ (forall cs, In cs ws -> keeps (fst cs))) /\ NoDup (map tmp_of ws).
 
 Definition installed (path : str) (ws : sys) (f : fs) : Prop :=
   exists c d, In c (map fst ws) /\ w_new c = Some d /\ fs_find f path = Some d.
@@ -745,7 +901,7 @@ Definition MInv (path : str) (f0 : fs) (ws : sys) (f : fs) : Prop :=
 Lemma MInv_step path f0 i ws f ws' f' :
   MInv path f0 ws f -> sstep i ws f = (ws', f') -> MInv path f0 ws' f'.
 Proof.
-  intros ([Hpath Hnd] & Ht & Hall & Hdone & Hfr) H.
+  intros ([[Hpath Hkeep] Hnd] & Ht & Hall & Hdone & Hfr) H.
   destruct (sstep_spec _ _ _ _ _ H) as [[-> ->]|(pre & c & s & s' & post & -> & -> & Hs)].
   { repeat split; auto. }
   assert (Hc : w_path c = path) by (apply (Hpath (c, s)); apply in_or_app; right; left; reflexivity).
@@ -763,17 +919,22 @@ Proof.
       + apply w_tmp_ne_path.
       + apply in_app_or in Hin. apply in_or_app. destruct Hin; [left|right; right]; auto. }
   assert (Hown : PW c s' (fs_find f' (w_tmp c))).
-  { eapply PW_step; eauto. rewrite Forall_forall in Hall. apply (Hall (c, s)). apply in_or_app. right. left. reflexivity. }
+  { eapply PW_step; eauto.
+    { apply (Hkeep (c, s)). apply in_or_app. right. left. reflexivity. }
+    rewrite Forall_forall in Hall. apply (Hall (c, s)). apply in_or_app. right. left. reflexivity. }
   assert (Hall' : Forall (fun cs => PW (fst cs) (snd cs) (fs_find f' (tmp_of cs))) (pre ++ (c, s') :: post)).
   { rewrite Forall_forall in *. intros cs Hin. apply in_app_or in Hin. destruct Hin as [Hin|[<-|Hin]].
     - rewrite Hother by (apply in_or_app; auto). apply Hall. apply in_or_app. auto.
     - exact Hown.
     - rewrite Hother by (apply in_or_app; auto). apply Hall. apply in_or_app. right. right. auto. }
   assert (HWF : WF path (pre ++ (c, s') :: post)).
-  { split; [|rewrite Htmp; exact Hnd]. intros cs Hin. apply in_app_or in Hin. destruct Hin as [Hin|[<-|Hin]].
+  { split; [|rewrite Htmp; exact Hnd]. split; intros cs Hin; apply in_app_or in Hin; destruct Hin as [Hin|[<-|Hin]].
     - apply Hpath. apply in_or_app. auto.
     - exact Hc.
-    - apply Hpath. apply in_or_app. right. right. auto. }
+    - apply Hpath. apply in_or_app. right. right. auto.
+    - apply Hkeep. apply in_or_app. auto.
+    - apply (Hkeep (c, s)). apply in_or_app. right. left. reflexivity.
+    - apply Hkeep. apply in_or_app. right. right. auto. }
   assert (Hfr' : forall p, p <> path -> (forall cs, In cs (pre ++ (c, s') :: post) -> p <> tmp_of cs) -> fs_find f' p = fs_find f0 p).
   { intros p N1 N2. rewrite (step_frame _ _ _ _ _ p Hs).
     - apply Hfr; auto. intros cs Hin. apply in_app_or in Hin. destruct Hin as [Hin|[<-|Hin]].
@@ -804,10 +965,12 @@ Lemma sinit_in cs x : In x (sinit cs) -> snd x = winit /\ In (fst x) cs.
 Proof. unfold sinit. intro H. apply in_map_iff in H. destruct H as (c & <- & Hc). auto. Qed.
 
 Lemma MInv_init path f0 cs :
-  (forall c, In c cs -> w_path c = path) -> NoDup (map w_tmp cs) -> MInv path f0 (sinit cs) f0.
+  (forall c, In c cs -> w_path c = path) -> (forall c, In c cs -> keeps c) ->
+  NoDup (map w_tmp cs) -> MInv path f0 (sinit cs) f0.
 Proof.
-  intros Hp Hnd. split; [split|].
+  intros Hp Hk Hnd. split; [split; [split|]|].
   - intros x Hx. apply sinit_in in Hx. apply Hp. apply Hx.
+  - intros x Hx. apply sinit_in in Hx. apply Hk. apply Hx.
   - unfold sinit. rewrite map_map. exact Hnd.
   - split; [left; reflexivity|]. split.
     + rewrite Forall_forall. intros x Hx. apply sinit_in in Hx. destruct Hx as [-> _]. apply PW_init.
@@ -815,10 +978,10 @@ Proof.
 Qed.
 
 Lemma MInv_run path f0 cs sched :
-  (forall c, In c cs -> w_path c = path) -> NoDup (map w_tmp cs) ->
+  (forall c, In c cs -> w_path c = path) -> (forall c, In c cs -> keeps c) -> NoDup (map w_tmp cs) ->
   MInv path f0 (fst (srun sched (sinit cs) f0)) (snd (srun sched (sinit cs) f0)).
 Proof.
-  intros Hp Hnd. apply (srun_inv (MInv path f0)).
+  intros Hp Hk Hnd. apply (srun_inv (MInv path f0)).
   - intros i ws f ws' f'. apply MInv_step.
   - apply MInv_init; auto.
 Qed.
@@ -853,11 +1016,12 @@ Qed.
 
 (* at every cut point of every interleaving the target is old or some writer's complete exposition *)
 Theorem writers_target path f0 cs sched :
-  (forall c, In c cs -> w_path c = path) -> NoDup (map (fun c => (w_pid c, w_tid c)) cs) ->
+  (forall c, In c cs -> w_path c = path) -> (forall c, In c cs -> keeps c) ->
+  NoDup (map (fun c => (w_pid c, w_tid c)) cs) ->
   let f := snd (srun sched (sinit cs) f0) in
   fs_find f path = fs_find f0 path \/ exists c d, In c cs /\ w_new c = Some d /\ fs_find f path = Some d.
 Proof.
-  intros Hp Hnd. cbn zeta. destruct (MInv_run path f0 cs sched Hp (distinct_ids_distinct_tmps path cs Hp Hnd)) as (_ & Ht & _).
+  intros Hp Hk Hnd. cbn zeta. destruct (MInv_run path f0 cs sched Hp Hk (distinct_ids_distinct_tmps path cs Hp Hnd)) as (_ & Ht & _).
   destruct Ht as [Ht|(c & d & H1 & H2 & H3)]; [left; exact Ht|right].
   exists c, d. rewrite srun_cfgs, sinit_cfgs in H1. auto.
 Qed.
@@ -866,20 +1030,21 @@ Qed.
    an error its handler catches, its temporary file is gone; if some writer returned, the target holds a complete
    exposition of one of the writers *)
 Theorem writers_end path f0 cs sched :
-  (forall c, In c cs -> w_path c = path) -> NoDup (map (fun c => (w_pid c, w_tid c)) cs) ->
+  (forall c, In c cs -> w_path c = path) -> (forall c, In c cs -> keeps c) ->
+  NoDup (map (fun c => (w_pid c, w_tid c)) cs) ->
   let ws := fst (srun sched (sinit cs) f0) in
   let f := snd (srun sched (sinit cs) f0) in
   (forall c s r, In (c, s) ws -> nhf c -> w_pc s = PDone r ->
-     r = wresult c /\ (match r with Some e => catches c e = true | None => True end -> fs_find f (w_tmp c) = None))
+     (w_short c = [] -> r = wresult c) /\ (match r with Some e => catches c e = true | None => True end -> fs_find f (w_tmp c) = None))
   /\ ((exists c s, In (c, s) ws /\ w_pc s = PDone None) ->
       exists c d, In c cs /\ w_new c = Some d /\ fs_find f path = Some d)
   /\ (forall p, p <> path -> (forall c, In c cs -> p <> w_tmp c) -> fs_find f p = fs_find f0 p).
 Proof.
-  intros Hp Hnd. cbn zeta.
-  destruct (MInv_run path f0 cs sched Hp (distinct_ids_distinct_tmps path cs Hp Hnd)) as (_ & _ & Hall & Hdone & Hfr).
+  intros Hp Hk Hnd. cbn zeta.
+  destruct (MInv_run path f0 cs sched Hp Hk (distinct_ids_distinct_tmps path cs Hp Hnd)) as (_ & _ & Hall & Hdone & Hfr).
   split; [|split].
   - intros c s r Hin Hn Hr. rewrite Forall_forall in Hall. destruct (Hall _ Hin) as [_ HC]. cbn [fst snd] in HC.
-    destruct (HC Hn) as [HC1 HC2]. rewrite Hr in HC2. cbn [resume] in HC2. split; auto.
+    destruct (HC Hn) as [HC1 HC2]. rewrite Hr in HC2. cbn [resume] in HC2. split; [exact HC2|].
     unfold cinv in HC1. rewrite Hr in HC1. unfold tmp_of in HC1. cbn [fst] in HC1. destruct r; auto.
   - intros (c & s & Hin & Hd). destruct Hdone as (c1 & d & H1 & H2 & H3).
     + exists (c, s). auto.
@@ -891,7 +1056,7 @@ Qed.
 (* all writers fine and finished: everyone returned, no temporary file, the target is one of the new expositions *)
 Theorem writers_all_return path f0 cs sched :
   (forall c, In c cs -> w_path c = path) -> NoDup (map (fun c => (w_pid c, w_tid c)) cs) ->
-  (forall c, In c cs -> nhf c /\ fault_free c) -> cs <> [] ->
+  (forall c, In c cs -> w_short c = [] /\ nhf c /\ fault_free c) -> cs <> [] ->
   let ws := fst (srun sched (sinit cs) f0) in
   let f := snd (srun sched (sinit cs) f0) in
   (forall c s, In (c, s) ws -> exists r, w_pc s = PDone r) ->
@@ -900,16 +1065,17 @@ Theorem writers_all_return path f0 cs sched :
   /\ (exists c d, In c cs /\ w_new c = Some d /\ fs_find f path = Some d).
 Proof.
   intros Hp Hnd Hok Hne. cbn zeta. intro Hdone.
-  destruct (writers_end path f0 cs sched Hp Hnd) as (H1 & H2 & _). cbn zeta in *.
+  assert (Hk : forall c, In c cs -> keeps c) by (intros c Hc; apply no_short_keeps; apply (Hok c Hc)).
+  destruct (writers_end path f0 cs sched Hp Hk Hnd) as (H1 & H2 & _). cbn zeta in *.
   assert (Hcfg : forall c s, In (c, s) (fst (srun sched (sinit cs) f0)) -> In c cs).
   { intros c s Hin. rewrite <- (sinit_cfgs cs), <- (srun_cfgs sched (sinit cs) f0). apply (in_map fst) in Hin. exact Hin. }
   assert (Hret : forall c s, In (c, s) (fst (srun sched (sinit cs) f0)) -> w_pc s = PDone None).
-  { intros c s Hin. destruct (Hdone c s Hin) as [r Hr]. destruct (Hok c (Hcfg c s Hin)) as [Hn Hff].
-    destruct (H1 c s r Hin Hn Hr) as [-> _]. apply wresult_none_iff in Hff. rewrite Hff in Hr. exact Hr. }
+  { intros c s Hin. destruct (Hdone c s Hin) as [r Hr]. destruct (Hok c (Hcfg c s Hin)) as (Hno & Hn & Hff).
+    destruct (H1 c s r Hin Hn Hr) as [Hrw _]. rewrite (Hrw Hno) in Hr. apply wresult_none_iff in Hff. rewrite Hff in Hr. exact Hr. }
   split; [exact Hret|]. split.
   - intros c Hc. assert (Hin : In c (map fst (fst (srun sched (sinit cs) f0)))) by (rewrite srun_cfgs, sinit_cfgs; exact Hc).
     apply in_map_iff in Hin. destruct Hin as ([c' s] & E & Hin). cbn [fst] in E. subst c'.
-    destruct (Hok c Hc) as [Hn _]. destruct (H1 c s None Hin Hn (Hret c s Hin)) as [_ Ht]. apply Ht. exact I.
+    destruct (Hok c Hc) as (_ & Hn & _). destruct (H1 c s None Hin Hn (Hret c s Hin)) as [_ Ht]. apply Ht. exact I.
   - apply H2. destruct cs as [|c r]; [congruence|].
     assert (Hin : In c (map fst (fst (srun sched (sinit (c :: r)) f0)))) by (rewrite srun_cfgs, sinit_cfgs; left; reflexivity).
     apply in_map_iff in Hin. destruct Hin as ([c' s] & E & Hin). cbn [fst] in E. subst c'.
@@ -922,11 +1088,12 @@ Proof. unfold os_move, chosen_call. destruct (fs_find f src); auto. destruct nt;
 
 Definition set_nt (b : bool) (c : wcfg) : wcfg :=
   {| w_path := w_path c; w_pid := w_pid c; w_tid := w_tid c; w_nt := b; w_buffered := w_buffered c;
-     w_colls := w_colls c; w_split := w_split c; w_plan := w_plan c; w_catch_base := w_catch_base c |}.
+     w_colls := w_colls c; w_split := w_split c; w_plan := w_plan c; w_short := w_short c; w_retry := w_retry c;
+     w_catch_base := w_catch_base c |}.
 
 Lemma step_platform b c s f : wstep (set_nt b c) s f = wstep c s f.
 Proof.
-  unfold wstep, do_write, do_close, accept, to_handler, catches, w_tmp. cbn [set_nt w_path w_pid w_tid w_nt w_buffered w_colls w_split w_plan w_catch_base].
+  unfold wstep, do_write, do_close, accept, to_handler, catches, w_tmp, short_of. cbn [set_nt w_path w_pid w_tid w_nt w_buffered w_colls w_split w_plan w_short w_retry w_catch_base].
   rewrite (os_move_chosen b), (os_move_chosen (w_nt c)). reflexivity.
 Qed.
 
@@ -942,7 +1109,7 @@ Proof. unfold os_move. intro H. rewrite H. destruct (fs_find f src); reflexivity
 (* ------------------------------------------------------------------ the pinned source: `except Exception` *)
 Definition c_kbd : wcfg :=
   {| w_path := s2l "m.prom"; w_pid := 4087; w_tid := 5; w_nt := false; w_buffered := true;
-     w_colls := [CRaise EBase]; w_split := []; w_plan := []; w_catch_base := false |}.
+     w_colls := [CRaise EBase]; w_split := []; w_plan := []; w_short := []; w_retry := true; w_catch_base := false |}.
 
 Theorem orig_leaves_temporary :
   exists c f0, w_catch_base c = false /\ nhf c /\ wresult c = Some (SCollect 0, EBase)
@@ -999,4 +1166,79 @@ Proof.
   destruct (srun_progress sched (sinit cs) f0 i c winit H) as (s & H1 & H2). exists s.
   cbn [winit w_pc pc_fuel] in H2. unfold wbound in Hn.
   destruct (fuel_zero_done c (w_pc s)) as [r Hr]; [lia|]. eauto.
+Qed.
+
+(* ------------------------------------------------------------------ short writes *)
+(* nothing raises: the run stays on the path that ends in a return *)
+Definition happy (s : wstate) : Prop :=
+  match w_pc s with
+  | PCollect rest _ acc => coll_data rest acc <> None
+  | PClose (Some _) | PExists _ | PRemove _ | PDone (Some _) => False
+  | _ => True
+  end.
+
+Lemma do_close_happy c s f s' f' : w_plan c = [] -> do_close c s f None = (s', f') -> happy s'.
+Proof. intros Hp H. unfold do_close in H. rewrite Hp in H. cbn [plan_find] in H. inv H. exact I. Qed.
+
+Lemma do_write_happy c s f chunks j s' f' : w_plan c = [] -> do_write c s f chunks j = (s', f') -> happy s'.
+Proof.
+  intros Hp H. destruct chunks as [|ch rest]; cbn [do_write] in H; [eapply do_close_happy; eauto|].
+  rewrite Hp in H. cbn [plan_find] in H. destruct (short_of c j ch) as [n|].
+  - destruct (accept c s f (firstn n ch)). inv H. exact I.
+  - destruct (accept c s f ch). inv H. exact I.
+Qed.
+
+Lemma happy_step c s f s' f' :
+  w_plan c = [] -> w_new c <> None -> winv c s (fs_find f (w_tmp c)) -> happy s -> wstep c s f = (s', f') -> happy s'.
+Proof.
+  intros Hp Hnew HW HH H. unfold wstep in H. unfold happy in HH. unfold winv in HW.
+  destruct (w_pc s) as [|rest i acc|chunks j|pending| |e|e|r] eqn:Hpc; try contradiction.
+  - rewrite Hp in H. cbn [plan_find] in H. inv H. unfold happy. cbn [w_pc]. exact Hnew.
+  - destruct rest as [|[b| |k] rest]; cbn [coll_data] in HH.
+    + destruct acc as [data|]; [|congruence]. eapply do_write_happy; eauto.
+    + inv H. unfold happy. cbn [w_pc]. exact HH.
+    + rewrite coll_data_none in HH. congruence.
+    + congruence.
+  - eapply do_write_happy; eauto.
+  - destruct pending as [e|]; [contradiction|]. eapply do_close_happy; eauto.
+  - rewrite Hp in H. cbn [plan_find] in H. destruct (os_move _ _ _ _ _) eqn:Hm.
+    + inv H. exact I.
+    + apply os_move_chosen_none in Hm. destruct HW as [HW _]. congruence.
+  - inv H. unfold happy. rewrite Hpc. exact HH.
+Qed.
+
+(* short writes ALONE (no error anywhere, the remainder submitted again) never make the call fail and never cost
+   a byte: the call returns, the target holds the complete new exposition, no temporary file, nothing else touched *)
+Theorem short_writes_harmless c f0 d :
+  w_retry c = true -> w_plan c = [] -> w_new c = Some d ->
+  outcome (fst (wfinal c f0)) = Some None
+  /\ fs_same (snd (wfinal c f0)) (fs_set (fs_remove f0 (w_tmp c)) (w_path c) d).
+Proof.
+  intros Hr Hp Hd. assert (Hk : keeps c) by (left; exact Hr).
+  assert (Hn : nhf c) by (unfold nhf; rewrite Hp; split; reflexivity).
+  assert (Ho : outcome (fst (wfinal c f0)) = Some None).
+  { destruct (terminates c f0) as [r Hdone]. unfold wfinal in *.
+    assert (HI : winv c (fst (wsteps c (wbound c) winit f0)) (fs_find (snd (wsteps c (wbound c) winit f0)) (w_tmp c))
+                 /\ happy (fst (wsteps c (wbound c) winit f0))).
+    { apply (wsteps_inv c (fun s f => winv c s (fs_find f (w_tmp c)) /\ happy s)); [|split; exact I].
+      intros s f s' f' [HW HH] H. split; [eapply step_winv; eauto|].
+      eapply happy_step; eauto. congruence. }
+    destruct HI as [_ HH]. unfold happy in HH. unfold outcome. rewrite Hdone in *. destruct r; [contradiction|reflexivity]. }
+  split; [exact Ho|]. destruct (return_installs_gen c f0 Hk Hn Ho) as (d' & Hd' & _ & Hs). congruence.
+Qed.
+
+(* the handle does NOT submit the remainder again (a raw handle whose write() result is ignored): a short write
+   silently loses the tail, the call returns and a strict prefix of the exposition is installed over the target *)
+Definition c_short : wcfg :=
+  {| w_path := s2l "m.prom"; w_pid := 4087; w_tid := 5; w_nt := false; w_buffered := false;
+     w_colls := [CYield (s2l "a 1"); CYield (s2l "b 2")]; w_split := []; w_plan := []; w_short := [(0, 4)]%nat;
+     w_retry := false; w_catch_base := true |}.
+
+Theorem short_write_dropped :
+  exists c f0 d, w_retry c = false /\ w_plan c = [] /\ w_new c = Some d
+    /\ fs_find f0 (w_path c) = Some (s2l "old")
+    /\ outcome (fst (wfinal c f0)) = Some None
+    /\ fs_find (snd (wfinal c f0)) (w_path c) = Some (firstn 4 d) /\ firstn 4 d <> d /\ firstn 4 d <> s2l "old".
+Proof.
+  exists c_short, [(s2l "m.prom", s2l "old")], (s2l "a 1b 2"). vm_compute. repeat split; discriminate.
 Qed.
